@@ -83,6 +83,16 @@ func (g *Gen) Line(fields ...string) {
 
 func (g *Gen) Count(k string) { g.Stats[k]++ }
 
+// notesViolation reports whether a harness-side violation has been recorded.
+func (g *Gen) notesViolation() bool {
+	for _, n := range g.Notes {
+		if strings.HasPrefix(n, "VIOLATION:") {
+			return true
+		}
+	}
+	return false
+}
+
 // Parallel runs the tasks on a worker pool and writes the lines they return in task
 // order, so the output is independent of scheduling. Tasks must not touch g.
 func (g *Gen) Parallel(tasks []func() []string) {
